@@ -1,5 +1,6 @@
 // harness for gmlc::concurrency::DelayedDestructor<Probe> and DelayedDestructorSingleThread<Probe> (C16, C20)
-// params: cb=0|1 (callback installed) reenter=0|1|2 (destructor / callback calls size()) locked=0|1 rev=0|1
+// params: cb=0|1 (callback installed) reenter=0|1|2|3|4 (destructor / callback calls size(); 3|4: calls destroyObjects(), one
+// level deep) locked=0|1 rev=0|1 cbthrow=0|1|2
 #include "cell.hpp"
 #include "gmlc/concurrency/DelayedDestructor.hpp"
 using namespace gmlc::concurrency;
@@ -27,7 +28,7 @@ struct Probe {
         // the destructor is user code: a step, it reports whether the calling thread holds the container's lock
         vrt::simple_point("dtor");
         vrt::log_ev("dtor", "obj", id, 0, 0, holds_dl() ? 1 : 0);
-        if (g_ctx && g_ctx->mode == 1 && g_ctx->reenter) g_ctx->reenter();
+        if (g_ctx && (g_ctx->mode == 1 || g_ctx->mode == 3) && g_ctx->reenter) g_ctx->reenter();
     }
 };
 
@@ -51,10 +52,20 @@ static void run_dd(vrt::Exec& x)
         }
         if (g_ctx->cbthrow == 0) vrt::simple_point("cb");
         vrt::log_ev("cb", "obj", p ? p->id : 0, 0, 0, holds_dl() ? 1 : 0);
-        if (g_ctx->mode == 2 && g_ctx->reenter) g_ctx->reenter();
+        if ((g_ctx->mode == 2 || g_ctx->mode == 4) && g_ctx->reenter) g_ctx->reenter();
     }))
                  : x.make<DD>("dd");
-    if (LOCKED) ctx.reenter = [D] { (void)D->size(); };
+    if (LOCKED) {
+        if (ctx.mode >= 3)
+            ctx.reenter = [D] {
+                static thread_local int depth = 0;  // user code of a nested sweep does not nest again
+                if (depth > 0) return;
+                ++depth;
+                (void)D->destroyObjects();
+                --depth;
+            };
+        else ctx.reenter = [D] { (void)D->size(); };
+    }
     static const std::vector<const char*> names{"add", "drop", "destroy", "size", "add_temp"};
     auto mine = std::make_shared<std::vector<std::shared_ptr<Probe>>>(9);
     int rev = (int)x.param("rev", 0);
